@@ -90,16 +90,18 @@ def _extend_args(args: list[str], flags: list[tuple[str, Any]]) -> list[str]:
 
 def _run_zerv_command(args: list[str], stdin: str | None = None) -> str:
     zerv_bin = find_zerv_bin()
+    # Bytes in and out, decoded by hand: a text-mode pipe rewrites "\r" and "\r\n" in the output
+    # to "\n", so the returned text would differ from what the command line prints
     result = subprocess.run(
         [zerv_bin, *args],
-        input=stdin,
+        input=stdin.encode("utf-8") if stdin is not None else None,
         capture_output=True,
-        text=True,
         check=False,
     )
     if result.returncode != 0:
-        raise RuntimeError(f"zerv command failed: {result.stderr}")
-    return result.stdout.strip()
+        stderr = result.stderr.decode("utf-8", errors="replace")
+        raise RuntimeError(f"zerv command failed: {stderr}")
+    return result.stdout.decode("utf-8").strip()
 
 
 def version(
